@@ -53,6 +53,7 @@ type interpreter struct {
 	lastNow            value
 	fsSt               *fsState
 	expectExit         bool
+	jsonDocs           []*jdoc
 }
 
 type deferred struct {
